@@ -1,6 +1,7 @@
 package props
 
 import (
+	"bufio"
 	"fmt"
 	"io"
 	"net"
@@ -49,6 +50,12 @@ type C17Case struct {
 	// FailAll (sum): the archive id is out of range for every file, so every one of the (many) per-file reads
 	// fails; the sum must come back with that error, as a read of any one file alone does
 	FailAll bool `json:"fail_all,omitempty"`
+	// HalfClose (http): the concurrent clients shut down the sending side of their connection once the request
+	// is written and keep reading (as nc and HTTP/1.0-style tools do); the answer is the one an ordinary client gets
+	HalfClose bool `json:"half_close,omitempty"`
+	// Wide (http): this many further small files in a directory "wide" of the served subtree, listed by
+	// several of the concurrent requests (listings that take a while)
+	Wide int `json:"wide,omitempty"`
 }
 
 func noteLastCase(c interface{}) { noteCaseInFlight(c) }
@@ -313,6 +320,36 @@ func runC17(c C17Case, ev *Evid) (fs []Finding) {
 			add("setup", "%v", err)
 			return
 		}
+		if c.Wide > 0 {
+			tiny := Layout{Archives: []Arch{{Step: 1, Points: 2}}, Method: 2}
+			for i := 0; i < c.Wide; i++ {
+				if err := buildFile(filepath.Join(root, sub, "wide", fmt.Sprintf("w%04d.wsp", i)), FileSpec{L: tiny}, c.Now); err != nil {
+					add("setup", "%v", err)
+					return
+				}
+			}
+		}
+		getHalfClosed := func(req string) (string, error) {
+			conn, err := net.DialTimeout("tcp", strings.TrimPrefix(base, "http://"), 10*time.Second)
+			if err != nil {
+				return "", err
+			}
+			defer conn.Close()
+			conn.SetDeadline(time.Now().Add(45 * time.Second))
+			if _, err := fmt.Fprintf(conn, "GET %s HTTP/1.1\r\nHost: x\r\nConnection: close\r\n\r\n", req); err != nil {
+				return "", err
+			}
+			if tc, ok := conn.(*net.TCPConn); ok {
+				tc.CloseWrite()
+			}
+			resp, err := http.ReadResponse(bufio.NewReader(conn), nil)
+			if err != nil {
+				return "", fmt.Errorf("no answer on a connection whose sending side was shut down after the request: %v", err)
+			}
+			defer resp.Body.Close()
+			b, err := io.ReadAll(resp.Body)
+			return fmt.Sprintf("%d %s %s|", resp.StatusCode, resp.Header.Get("X-Op"), resp.Header.Get("Content-Type")) + string(b), err
+		}
 		get := func(req string) (string, error) {
 			resp, err := httpClient60.Get(base + req)
 			if err != nil {
@@ -371,7 +408,11 @@ func runC17(c C17Case, ev *Evid) (fs []Finding) {
 				go func() {
 					defer wg.Done()
 					<-start
-					conc[i], errs[i] = get(reqs[i])
+					if c.HalfClose {
+						conc[i], errs[i] = getHalfClosed(reqs[i])
+					} else {
+						conc[i], errs[i] = get(reqs[i])
+					}
 				}()
 			}
 			close(start)
@@ -401,6 +442,12 @@ func runC17(c C17Case, ev *Evid) (fs []Finding) {
 		cls := []string{"kind=http", fmt.Sprintf("requests>=%d", len(reqs)/8*8)}
 		if c.Aborts > 0 {
 			cls = append(cls, "after-aborted-clients")
+		}
+		if c.HalfClose {
+			cls = append(cls, "half-closing-clients")
+		}
+		if c.Wide > 0 {
+			cls = append(cls, "wide-listings-in-flight")
 		}
 		if bodies > 0 {
 			cls = append(cls, "http-data-responses")
@@ -553,6 +600,18 @@ func genC17(t *rapid.T) C17Case {
 			}
 			p = rapid.IntRange(0, 6).Draw(t, "otherRequests")
 		}
+		if rapid.IntRange(0, 3).Draw(t, "halfClose") == 0 {
+			c.HalfClose = true
+		}
+		if rapid.IntRange(0, 3).Draw(t, "wide") == 0 {
+			c.Wide = rapid.IntRange(200, 900).Draw(t, "wideFiles")
+			for j := rapid.IntRange(1, 4).Draw(t, "wideListings"); j > 0; j-- {
+				c.Requests = append(c.Requests, "/files?pattern=%SUB%/wide/*.wsp")
+			}
+			if p < 6 {
+				p = 6
+			}
+		}
 		for i := 0; i < p; i++ {
 			f := c.Files[rapid.IntRange(0, len(c.Files)-1).Draw(t, "file")]
 			from, until := genCLIWindow(t, l, now)
@@ -594,10 +653,11 @@ func replaceSlash(s string) string {
 }
 
 func TestC17(t *testing.T) {
+	serverRelativeBase = true
 	defer cleanupServerRoot()
 	RunProperty(t, Property[C17Case]{
 		ID:          "C17",
-		Rule:        "built with the Go race detector (halt_on_error: a data race ends the process and is reported as the violation). Three generated case kinds: handle - one handle on a multi-page file, 2-16 goroutines released together, each issuing a generated FetchFromArchive (any archive / window) or raw dump; sum - the sum command over 2-40 files (its per-file reads run concurrently) at a controlled clock; http - 2-24 parallel raw GETs of /view, /view-raw, /sum, /items, /files (explicit now in the query, existing and missing files) against the in-process server. Oracle: zero race reports, and every concurrent result equals the same call executed alone afterwards (fresh handle / fresh request; sum vs. files summed one at a time; byte-equal status+headers+body for HTTP). Non-trivial: >=2 calls on the same archive / >=2 files / >=2 requests in flight. Distinct = hash of the case.",
+		Rule:        "built with the Go race detector (halt_on_error: a data race ends the process and is reported as the violation). Three generated case kinds: handle - one handle on a multi-page file, 2-16 goroutines released together, each issuing a generated FetchFromArchive (any archive / window) or raw dump; sum - the sum command over 2-40 files (its per-file reads run concurrently) at a controlled clock; http - 2-24 parallel raw GETs of /view, /view-raw, /sum, /items, /files (explicit now in the query, existing and missing files) against the in-process server. Oracle: zero race reports, and every concurrent result equals the same call executed alone afterwards (fresh handle / fresh request; sum vs. files summed one at a time; byte-equal status+headers+body for HTTP). The C17 server is started with a base directory relative to the working directory; a quarter of the http cases use clients that shut down their sending side after the request (answer compared with an ordinary client's), a quarter keep listings over 200-900 files in flight. Non-trivial: >=2 calls on the same archive / >=2 files / >=2 requests in flight. Distinct = hash of the case.",
 		Assumptions: []string{"OS scheduling is not controlled; the race detector reports unsynchronized conflicting accesses that actually executed", "the replay of a race is schedule dependent"},
 		Gen:         genC17,
 		Run:         runC17,
